@@ -132,6 +132,9 @@ type drv struct {
 	ended   map[int64]bool
 	updSeq  int64
 	byGoU   map[int64]int64 // goroutine -> management call it is making
+	dead    int64           // the session's watchdog fired (atomic)
+	npop    int64           // instances taken / handed back so far (hooks; atomic)
+	npush   int64
 	model   int64           // the pool's execution model as the session's management steps left it (atomic)
 	storm   int64           // > 0 while the model is being changed concurrently with requests
 }
@@ -313,6 +316,7 @@ func (d *drv) hook(site string, a, b int64) {
 			d.instOf[q] = a
 		}
 		d.mu.Unlock()
+		atomic.AddInt64(&d.npop, 1)
 		d.o.Emit(obs.Event{"ev": "pop", "q": q, "i": a, "locked": b % 2, "len": b / 2})
 	case "spin":
 		g := goid()
@@ -336,6 +340,7 @@ func (d *drv) hook(site string, a, b int64) {
 		}
 	case "push":
 		d.o.Emit(obs.Event{"ev": "push", "i": a, "locked": b % 2, "len": b / 2})
+		atomic.AddInt64(&d.npush, 1)
 	case "publish":
 		d.mu.Lock()
 		u := d.byGoU[goid()]
@@ -665,16 +670,14 @@ func (d *drv) queries(args []string) {
 }
 
 func (d *drv) quiesce() {
-	// the pushes are asynchronous: wait (bounded) until the log is quiet
-	deadline := time.Now().Add(2 * time.Second)
-	last := -1
-	for time.Now().Before(deadline) {
-		time.Sleep(3 * time.Millisecond)
-		n := d.o.Len()
-		if n == last {
-			break
+	// the hand-backs are asynchronous: wait until every instance that was taken has been handed back.  No clock
+	// decides here: if a hand-back never comes, the session's watchdog ends the wait and the runner's
+	// hang-reproduction rule decides.
+	for atomic.LoadInt64(&d.npush) < atomic.LoadInt64(&d.npop) {
+		time.Sleep(200 * time.Microsecond)
+		if atomic.LoadInt64(&d.dead) != 0 {
+			return
 		}
-		last = n
 	}
 	d.o.Emit(obs.Event{"ev": "quiesce"})
 	// every result map handed back so far must still be what it was when it was returned
@@ -847,6 +850,7 @@ func runSession(s *Session, quiet time.Duration, seed int64) ([]obs.Event, bool)
 	}
 	o.StopController()
 	if !ok {
+		atomic.StoreInt64(&d.dead, 1)
 		// let parked holders go so that the goroutines of a stuck session do not spin behind the next one
 		d.mu.Lock()
 		for q, ch := range d.manual {
